@@ -707,6 +707,18 @@ func checkC13(e *Env) {
 	})
 	obs.Add("calls_on_a_source_that_fails_transiently_and_stays_installed", transientCalls)
 
+	// (e) "a function of its arguments alone" also means: not of what other goroutines are
+	// calling at the moment. All functions mixed (generators next to validators next to seeds),
+	// judged against the same call executed alone (C12 is the full treatment)
+	mixed := append(append(append(e.smokePool("C13", "enc"), e.smokePool("C13", "chk")...), e.smokePool("C13", "seed")...), e.smokePool("C13", "str")...)
+	concCalls := e.concurrentSmoke(drv, "C13", mixed, e.pick(6, 24), e.pick(150, 600), func(op *plan.Op, r *plan.Res) string {
+		if op.Fn == "new" && op.Src == nil {
+			return ""
+		}
+		return e.confirmedDeviation(drv, op, r, e.refEval(op))
+	})
+	obs.Add("calls_repeated_under_concurrency", concCalls)
+
 	wantPairs := len(langs) * len(langs)
 	if e.Violations() == 0 && pairs.Len() != wantPairs {
 		fatalInconclusive("C13: %d of %d ordered first-use pairs covered", pairs.Len(), wantPairs)
@@ -714,7 +726,7 @@ func checkC13(e *Env) {
 	e.WriteEvidence("exploration", map[string]any{
 		"evaluations":                      totalOps,
 		"distinct_nontrivial":              dist.Len(),
-		"rule":                             "cases are call sequences executed in one fresh process each: (a) every ordered pair of first-used languages (10x10; thorough 13x13 incl. -1, 10, 100, three first-call kinds, two repetitions) followed by probe calls on all ten languages; (a') ten kinds of failing or unsupported first calls, each followed by first use of every language; (a'') memo-hunting patterns (a string accepted under one language asked under another, the same words in another spelling, a near miss right after a hit, the same entropy under another language, identical and almost identical seed arguments, scripted sources replayed under another language); (a3) the same calls again after the process was idle for 1.1 s and 2.1 s with garbage collections in between; (b) seeded random sequences of 100-300 calls (one call in five is repeated immediately, then followed by different ones) over all six functions, ten languages and unsupported values, with failing calls, repeated inputs far apart, caller-owned entropy buffers reused across calls, and NewMnemonic on scripted and default sources; every result is compared with the history-free reference model and with the same call executed alone as the first call of another fresh process (all deterministic calls in quick; one in eight of the random sequences' calls in thorough); (c) a few sequences of 4000 (thorough 20000) calls; (d) NewMnemonic over one scripted source that stays installed across calls, reports transient errors during some of them and then works again; entropy buffers are re-inspected after every call and at the end, and every retained result is re-read (digest) at the end of its sequence; non-trivial = every call with history; distinct = distinct calls (function, arguments)",
+		"rule":                             "cases are call sequences executed in one fresh process each: (a) every ordered pair of first-used languages (10x10; thorough 13x13 incl. -1, 10, 100, three first-call kinds, two repetitions) followed by probe calls on all ten languages; (a') ten kinds of failing or unsupported first calls, each followed by first use of every language; (a'') memo-hunting patterns (a string accepted under one language asked under another, the same words in another spelling, a near miss right after a hit, the same entropy under another language, identical and almost identical seed arguments, scripted sources replayed under another language); (a3) the same calls again after the process was idle for 1.1 s and 2.1 s with garbage collections in between; (b) seeded random sequences of 100-300 calls (one call in five is repeated immediately, then followed by different ones) over all six functions, ten languages and unsupported values, with failing calls, repeated inputs far apart, caller-owned entropy buffers reused across calls, and NewMnemonic on scripted and default sources; every result is compared with the history-free reference model and with the same call executed alone as the first call of another fresh process (all deterministic calls in quick; one in eight of the random sequences' calls in thorough); (c) a few sequences of 4000 (thorough 20000) calls; (d) NewMnemonic over one scripted source that stays installed across calls, reports transient errors during some of them and then works again; (e) a small pool of calls of all functions repeated by 8-16 goroutines from a cold start, every observation compared with the same call executed alone; entropy buffers are re-inspected after every call and at the end, and every retained result is re-read (digest) at the end of its sequence; non-trivial = every call with history; distinct = distinct calls (function, arguments)",
 		"samples":                          smp.List(),
 		"ordered_first_use_pairs_covered":  pairs.Len(),
 		"ordered_first_use_pairs_possible": wantPairs,
